@@ -16,6 +16,9 @@ static inline _Bool exc_matches(int e, int kind) {
   return e == kind;
 }
 
+/* string concatenation / literals inside a concatenation: opaque unless a prelude observes them */
+#define CSTRING_CONCAT(a, b) cstring__opaque()
+#define CSTRING_LIT(t, h) cstring__opaque()
 #define SAME(p, q) __CPROVER_same_object((p), (q))
 #define OFF(p) __CPROVER_POINTER_OFFSET(p)
 
